@@ -143,3 +143,64 @@ def to_sympy(ctx):
                 replay=FB14,
             )
     ctx.cover("some-relation-path", [z3.BoolVal(n_rel > 0)])
+
+
+@unit("C14.combine-tail", "C14", "ngo.math_simplification:Goebner.combine", fallback={"mirror": "corpus", "trait": "math"})
+def combine_tail(ctx):
+    """MECHANICAL EXTRACTION of the end of Goebner.combine: the statements that follow its balancing loop (`for both in
+    ...`) in the same block, taken from the real syntax tree on every run and executed unchanged.  What the extraction
+    DROPS: everything before them (sympy `collect`, the search for the factors, the balancing loop); it is replaced by
+    the ASSUMPTION that this prefix did its job: factor1, factor2 are non-zero integers and the two middle expressions
+    agree after scaling (mid1*factor1 = mid2*factor2, under the arbitrary but fixed assignment of the variables for
+    which the expressions are evaluated -- expressions are modelled by their integer values).
+    Proved for the extracted statements: the returned pair of guards `lhs opl mid opr rhs` holds exactly when both
+    relations `l1 op1 m1` and `l2 op2 m2` hold (scaling by a negative factor mirrors the operator, strictness kept)."""
+    import ast as pyast
+
+    from pyvc.exec import Frame
+    from pyvc.values import Fn
+
+    sem, m, ex = sem_of(ctx), ctx.m, ctx.ex
+    C = m.enums["ComparisonOperator"][1]
+    f = ex.find_function("ngo.math_simplification", "Goebner.combine")
+    # locate: the `if common and ...:` block, inside it the balancing For loop, and the statements after that loop
+    tail = None
+    for node in pyast.walk(f.node):
+        if isinstance(node, pyast.If):
+            for i, stmt in enumerate(node.body):
+                if isinstance(stmt, pyast.For) and isinstance(stmt.target, pyast.Name) and stmt.target.id == "both" and i + 1 < len(node.body):
+                    tail = node.body[i + 1 :]
+    ctx.oblige("extraction-found-the-tail", [], z3.BoolVal(tail is not None and any(isinstance(s_, pyast.Return) for s_ in tail)), kind="assert")
+    if tail is None:
+        return
+    st = ctx.state()
+    l1, m1, l2, m2 = (ctx.sym(n_, "int") for n_ in ("l1", "m1", "l2", "m2"))
+    op1, op2 = ctx.sym("op1", ("enum", "ComparisonOperator")), ctx.sym("op2", ("enum", "ComparisonOperator"))
+    f1, f2 = ctx.sym("factor1", "int"), ctx.sym("factor2", "int")
+    st.assume(f1.term != 0, f2.term != 0, m1.term * f1.term == m2.term * f2.term)
+    relations = st.alloc(ListObj(items=(Tup((l1, op1, m1)), Tup((l2, op2, m2)))))
+    eid = st.new_env({"relations": relations, "first": 0, "second": 1, "factor1": f1, "factor2": f2, "self": ctx.new_object(st, "Goebner")})
+    fn = Fn(f.node, f.module, f.qualname, None, None, f.cls, f.is_static)
+    fr = Frame(f.module, f.qualname, eid, fn)
+    ex.functions_seen.setdefault("ngo.math_simplification:Goebner.combine", (ex.module_path(f.module), f.node.lineno))
+    outs = ex.exec_block(tail, st, fr)
+    ctx.cover("reach", st)
+    ctx.assume_note("combine: only the statements after the balancing loop are under contract (mechanical extraction); assumed for the dropped prefix: factor1 != 0, factor2 != 0, mid1*factor1 == mid2*factor2; sympy expressions are modelled by their integer values under an arbitrary assignment; nonlinear integer arithmetic is left to z3")
+    n_ret = 0
+    for n, (s, o) in enumerate(outs):
+        if o.kind == "raise":
+            ctx.oblige(f"no-raise#{n}:{o.exc}", s, z3.BoolVal(False), kind="assert")
+            continue
+        if o.kind != "return" or not isinstance(o.value, Tup) or len(o.value.items) != 5:
+            ctx.oblige(f"returns-a-five-tuple#{n}", s, z3.BoolVal(False), kind="frame")
+            continue
+        n_ret += 1
+        lhs, opl, mid, opr, rhs = (ex.to_term(s, x, ty) for x, ty in zip(o.value.items, ("int", ("enum", "ComparisonOperator"), "int", ("enum", "ComparisonOperator"), "int")))
+        both = z3.And(sem.cmp_int(op1.term, l1.term, m1.term), sem.cmp_int(op2.term, l2.term, m2.term))
+        pair = z3.And(sem.cmp_int(opl, lhs, mid), sem.cmp_int(opr, mid, rhs))
+        # split by operator pair: 36 small nonlinear queries instead of one with symbolic operators
+        for a_name, a in C.items():
+            for b_name, b in C.items():
+                ctx.oblige(f"pair-means-both-relations[{a_name},{b_name}]#{n}", s, z3.Implies(z3.And(op1.term == a, op2.term == b), pair == both), replay={"mirror": "corpus", "trait": "math"})
+    ctx.cover("some-return", [z3.BoolVal(n_ret > 0)])
+    ctx.inputs.clear()
